@@ -8,6 +8,14 @@ CHECKS = {
          "Every (wire type, value, expected type) triple of the stated finite scopes, every legal table transformation, every hostile table of <=2 entries and every 1-byte (thorough: 2-byte) deviation is decoded by the real untyped decoder and by the reference model (strict binary grammar + coercion relation); acceptance and returned values must agree case by case.",
          "Trusted: reference models R2/R3/R4 written from spec/Candid.md (validated against the spec's own test suite at setup); scope bounds as listed in evidence.rule.",
          "DESIGN.md section 5, C02"),
+ "C05": ("bounded-exhaustive enumeration of type-environment pairs and BFS over query histories sharing one memo (explicit-state, states merged on memo content), real subtype/equal/upgrade checks vs. a greatest-fixed-point reference",
+         "Every query of the stated scopes (all pairs of small types; all environments of two mutually recursive definitions vs. every single-definition mutant; record pairs with one flipped leaf; 10 query shapes incl. opt-probe-then-reuse) is answered by the real subtype (3 modes), subtype_check_all, equal and, through printed .did text with order/renaming variants, service_compatible / report / service_equal, and compared with the greatest fixed point computed over the reachable pair graph; histories of successful queries sharing one Gamma are explored breadth-first with the answer and the invariant 'memo is a subset of the relation' checked on every transition.",
+         "Trusted: R3 (gfp over reachable pairs) as a reading of the spec's rules. Transitivity is demanded on the null-free fragment only, because the spec's own relation is not transitive through null-typed record fields.",
+         "DESIGN.md section 5, C05; Appendix A.1, C.2"),
+ "C16": ("bounded-exhaustive enumeration of principals (all byte strings of length <=2, structured families for every length 0..40) and of all single (thorough: double) deviations of their canonical texts, real ic_principal parser/printer/constructors vs. a reference CRC32/base32 implementation",
+         "Every principal of the scope is printed, parsed back and pushed through every constructor and serde/candid form; every text of the deviation scope (replace/insert/delete/dash moves/regrouping/truncation/case masks) is parsed by the real parser and by the reference parser; acceptance and the returned principal must agree.",
+         "Trusted: refmodel::hash (CRC32, RFC 4648 base32, grouping) cross-checked by a second classifier in the check. The serde binary form delivered as an owned buffer (visit_byte_buf is candid's private tag-byte channel) is counted as informational, not a verdict.",
+         "DESIGN.md section 5, C16"),
 }
 
 NOT_YET = {}
